@@ -70,3 +70,29 @@ Theorem C05_interval_push :
     sget O (eval_tape O oracle_at d (t_clauses t') v) (t_root t') = sget O w (t_root t).
 Proof. exact @interval_push. Qed.
 Print Assumptions C05_interval_push.
+
+(* Tape::getBase(point): walking up the parent chain stops at an INTERVAL-type level whose
+   stored region contains the query, or at the root; if every interval level agrees with the
+   root tape on its own region (the conclusion of the theorems above for that level), the
+   returned tape agrees with the full expression at the query — for ANY query point, inside
+   or outside the innermost region, and for every number type (NaN coordinates included:
+   they satisfy no comparison and reach the root). *)
+From LF Require Import Eval.GetBase.
+Theorem C05_get_base_point :
+  forall (num : Type) (O : ops num) (T : Type) (ev : T -> pt -> num)
+         (chain : list (@level num T)) (root : T) (p : pt),
+    chain_ok O ev chain root -> ev (get_base_pt O chain root p) p = ev root p.
+Proof. exact @get_base_pt_sound. Qed.
+Print Assumptions C05_get_base_point.
+
+(* Tape::getBase(Region): the same for every point of the query box, given that <= on the
+   coordinates involved is transitive (floats without NaN) *)
+Theorem C05_get_base_region :
+  forall (num : Type) (O : ops num) (T : Type) (ev : T -> pt -> num),
+    (forall a b c, o_leb O a b = true -> o_leb O b c = true -> o_leb O a c = true) ->
+  forall (chain : list (@level num T)) (root : T) (lo hi p : pt),
+    chain_ok O ev chain root ->
+    in_level O p {| l_interval := true; l_lo := lo; l_hi := hi; l_tape := root |} = true ->
+    ev (get_base_box O chain root lo hi) p = ev root p.
+Proof. exact @get_base_box_sound. Qed.
+Print Assumptions C05_get_base_region.
